@@ -44,7 +44,9 @@ func gevPipeline(k *chk, c *inst, kap int64, count func()) {
 			tau0 := outVec(n-1, 0) // documented: length exactly n-1
 			k.where = desc("Dgehrd query n", n, "ilo", ilo, "ihi", ihi, "lda", lda)
 			opt, ok := k.query("Dgehrd", minw, func(w []float64) { impl.Dgehrd(n, ilo, ihi, a, lda, tau0, w, -1) }, a, tau0)
-			for _, lwork := range lwVariants(minw, opt, ok) {
+			for oi, lwh := range lworkGrid(minw, opt, ok, lda, n) {
+				lwork := lwh.lwork
+				gridNote("lwork_grid", desc("Dgehrd", lwh.name, "lda+"+desc(pad)))
 				h := cloneF(a)
 				tau := outVec(n-1, 0)
 				k.where = desc("Dgebal+Dgehrd job", string(rune(job)), "n", n, "ilo", ilo, "ihi", ihi, "lda", lda, "lwork", lwork)
@@ -62,7 +64,11 @@ func gevPipeline(k *chk, c *inst, kap int64, count func()) {
 					oq, okq := k.query("Dhseqr", minw, func(w []float64) {
 						impl.Dhseqr(lapack.EigenvaluesOnly, lapack.SchurNone, n, ilo, ihi, h2, lda, wr, wi, zc, 1, w, -1)
 					}, h2, wr, wi, zc)
-					for _, lw := range lwVariants(minw, oq, okq) {
+					hv := lwVariants(minw, oq, okq)
+					if oi >= 2 {
+						hv = hv[oi%len(hv):][:1] // nested under the Dgehrd grid: one Dhseqr workspace per outer class
+					}
+					for _, lw := range hv {
 						h3 := cloneF(h)
 						unc := -1
 						k.where = desc("Dgebal+Dgehrd+Dhseqr(E,N) job", string(rune(job)), "n", n, "ilo", ilo, "ihi", ihi, "lda", lda, "lwork", lwork, "lworkh", lw)
@@ -86,7 +92,9 @@ func gevPipeline(k *chk, c *inst, kap int64, count func()) {
 				z0 := cloneF(h)
 				k.where = desc("Dorghr query n", n, "ilo", ilo, "ihi", ihi)
 				oq, okq := k.query("Dorghr", mq, func(w []float64) { impl.Dorghr(n, ilo, ihi, z0, ldz, tau, w, -1) }, z0, tau)
-				for _, lwq := range lwVariants(mq, oq, okq) {
+				for _, lwqv := range innerGrid(oi, lworkGrid(mq, oq, okq, ldz, n)) {
+					lwq := lwqv.lwork
+					gridNote("lwork_grid", desc("Dorghr", lwqv.name, "ldz+"+desc(pad)))
 					z := cloneF(h)
 					k.where = desc("Dgebal+Dgehrd+Dorghr job", string(rune(job)), "n", n, "ilo", ilo, "ihi", ihi, "lda", lda, "lwork", lwork, "lworkq", lwq)
 					if !k.run("Dorghr", func() { impl.Dorghr(n, ilo, ihi, z, ldz, tau, newWork(lwq), lwq) }) {
